@@ -79,7 +79,7 @@ class Job:
         return r, s, dt
 
     def prove(self, name, claim, assumptions=(), cex_info=None, mandatory=True, timeout_ms=None,
-              presimplify=True):
+              presimplify=True, prefer=()):
         """claim must hold under assumptions: check sat(assumptions & !claim).
         Returns 'unsat' | 'sat' | 'unknown' | 'trivial'."""
         import z3
@@ -98,6 +98,11 @@ class Job:
             self.n_discharged += 1
         elif r == 'sat':
             m = s.model()
+            if prefer:
+                # a second, friendlier model (moderate magnitudes) replays more robustly in floating point
+                r2, s2, _dt2 = self._solve(list(assumptions) + [neg] + list(prefer), min(timeout_ms or self.timeout_ms, 30000))
+                if r2 == 'sat':
+                    m = s2.model()
             info = dict(cex_info or {})
             info.setdefault('obligation', name)
             info['job'] = self.name
